@@ -47,7 +47,7 @@ func cmdSelftest(args []string) int {
 			fmt.Printf("selftest %s: silent on the tree; no seeded changes kept\n", id)
 			continue
 		}
-		if res["reported"].(int) != res["of"].(int) {
+		if res["reported"].(int)+res["documented_misses"].(int) != res["of"].(int) {
 			bad++
 			fmt.Printf("selftest %s: seeded change(s) missed: %v\n", id, res["details"])
 		}
